@@ -110,6 +110,8 @@ func fieldOf(v ssa.Value, root ssa.Value, names ...string) bool {
 func c03(r *Report, s *Sem) {
 	p := r.P
 	a := s.anchors()
+	R8 := r.Rule("R8", "the credentials judged are the ones this peer presented: the session decoder unmarshals the authentication member into a value created for this decode (the product of a factory call, or an allocation in the decoder) — never into a value looked up in a table shared between connections, which keeps the fields a previous peer sent when the member omits them", 1)
+	checkAuthDecodeFresh(r, s, R8)
 	defer r.Import(s, "C18", "R3", "R7", "the server treats as established only what is established: the Established callback has one call site, gated by the fact state == established (not merely 'not failed'), before the dispatch loop, and the Finished callback is paired with it", 4)
 	R1 := r.Rule("R1", "single gate: exactly one site can put a server channel into 'established' (constant state passed to the state setter from server-side code); non-constant setter calls are fenced to the client role; the gate's function is called only from the authentication loop", 3)
 	R2 := r.Rule("R2", "dominance chain: the call that establishes is dominated by the authentication callback call, its err==nil edge, the edges Role != \"\" and Role != unknown on that same result, the registration call and its err==nil edge; the callback call itself is dominated by state==authenticating, id==session id and the ok edge of a lookup of the peer's scheme in a map filled only from the offered scheme list; callback arguments and the registered node come from the peer's envelope of this round", 12)
